@@ -19,7 +19,7 @@ class C01(PureCheck):
     warm_every = 2
     rule = ("every attribute record (9 fg x 9 bg x {absent,False,True}^6; quick: all 5,184 records without "
             "explicit False + sampled False variants) built through fmtstr(text, **kwargs) with 7 texts "
-            "(empty, ASCII, controls, wide+combining, a combining mark / ZWJ alone in its run), runs of blanks only under every single attribute and fg + each other attribute, every C0 (without ESC) / DEL / C1 (without CSI) control character first, last and alone in a run, plus multi-run values built with + (empty runs "
+            "(empty, ASCII, controls, wide+combining, a combining mark / ZWJ alone in its run), runs of blanks only under every single attribute and fg + each other attribute, every C0 (without ESC) / DEL / C1 (without CSI) control character first, last and alone in a run, plus values that come out of the parser (FmtStr.from_str / fmtstr on every string of <=3 items over text and SGR / cursor-home sequences, closed or left open), plus multi-run values built with + (empty runs "
             "included); str(f) is lexed and the token list validated by TLC (Sgr.tla stream terminal). "
             "distinct_nontrivial = distinct (attribute records of all runs, text lengths) with at least one "
             "rendered attribute")
@@ -51,6 +51,14 @@ class C01(PureCheck):
         for k in range(600 if tier == "quick" else 6000):
             a = [rng.choice([0, 2, 5]), rng.choice([0, 0, 4])] + [rng.choice([0, 1, 1, 2]) for _ in range(6)]
             yield {"runs": [[enc.enc_text(TEXTS[k % len(TEXTS)]), a]], "twin": 1}
+        # values that come out of the parser: every string of <= 3 items over text and sequences, closed or left open
+        items = ["a", "b\n", "\x1b[31m", "\x1b[1m", "\x1b[44m", "\x1b[0m", "\x1b[39m", "\x1b[H", "\x1b[4;32m"]
+        k = 0
+        for n in (1, 2, 3):
+            for combo in itertools.product(items, repeat=n):
+                if any(c[0] == "\x1b" for c in combo) and any(c[0] != "\x1b" for c in combo):
+                    k += 1
+                    yield {"runs": [], "raw": enc.enc_text("".join(combo)), "via": k % 2}
         # runs that hold nothing but blanks (space, newline, tab, ideographic / no-break space): every single attribute
         # alone, and the foreground colour with each other attribute - alone and between two visible runs
         for t in (" ", "  ", "\n", "\t ", "\u3000", "\xa0", " \n "):
@@ -98,7 +106,12 @@ class C01(PureCheck):
             for t, a in runs:
                 d = {k: (int(v) if isinstance(v, bool) else v) for k, v in enc.dec_atts(a).items()}
                 str(FmtStr(Chunk(enc.dec_text(t), d)))
-        if len(runs) == 1:
+        if inp.get("raw") is not None:
+            # the value comes out of the parser (FmtStr.from_str called directly, or fmtstr) on a str that carries
+            # escape sequences - open colours at the end, resets in the middle, a tolerated cursor-home
+            raw = enc.dec_text(inp["raw"])
+            f = FmtStr.from_str(raw) if inp["via"] else fmtstr(raw)
+        elif len(runs) == 1:
             f = fmtstr(enc.dec_text(runs[0][0]), **enc.dec_atts(runs[0][1]))
         else:
             for t, a in runs:
